@@ -461,6 +461,21 @@ var childItems = []string{
 
 var prologs = []string{"", `<?xml version="1.0" encoding="UTF-8"?>` + "\n", `<!DOCTYPE svg PUBLIC "-//W3C//DTD SVG 1.1//EN" "http://www.w3.org/Graphics/SVG/1.1/DTD/svg11.dtd">`, `<!DOCTYPE svg [<!ENTITY e "v">]>`}
 
+// Documents emits the documents of the quick document family (pairs of child items under each root attribute set), for checks
+// that only need SVG documents as inputs (C09: validity of the output).
+func Documents(emit func(string) bool) {
+	seq := core.Sequences{K: len(childItems), MaxLen: 2}
+	for i := uint64(0); i < seq.Count(); i++ {
+		var b strings.Builder
+		for _, k := range seq.At(i, nil) {
+			b.WriteString(childItems[k])
+		}
+		if !emit(prologs[i%uint64(len(prologs))] + "<svg" + rootAttrSets[i%uint64(len(rootAttrSets))] + ">" + b.String() + "</svg>") {
+			return
+		}
+	}
+}
+
 func runDocs(c *core.Check) {
 	n := c.Pick(2, 3)
 	seq := core.Sequences{K: len(childItems), MaxLen: n}
